@@ -1575,6 +1575,7 @@ func extractC03(c *ctxT) {
 	c.facts["C03.attestTrySites"] = fsites
 
 	sb.WriteString(c.c03KeyLayoutLean())
+	sb.WriteString(c.c03DispatchLean())
 	sb.WriteString("end FxVerif.Gen.C03\n")
 	c.write("C03.lean", sb.String())
 	c.facts["C03.claims"] = factClaims
